@@ -161,6 +161,8 @@ inductive V where
   | int (i : Int)
   | bool (b : Bool)
   | str (s : String)
+  /-- IEEE binary64 (never NaN / infinite in xray); driver only, no theorem mentions a float value -/
+  | float (f : Float)
   | tuple (l : List V)
   | seq (l : List V)
   | opt (o : Option V)
@@ -185,6 +187,7 @@ def V.eq : V → V → R Bool
   | .int a, .int b => pure (a == b)
   | .bool a, .bool b => pure (a == b)
   | .str a, .str b => pure (a == b)
+  | .float a, .float b => pure (a == b)      -- floats.rs:115-121: IEEE `==` (so -0.0 == 0.0)
   | .tuple a, .tuple b => V.eqTuple a b
   | .seq a, .seq b => if a.length ≠ b.length then pure false else V.eqZip a b
   | .stack a, .stack b => if a.length ≠ b.length then pure false else V.eqZip a b
@@ -208,6 +211,7 @@ def V.cmp : V → V → R Int
   | .int a, .int b => pure (sign (a - b))
   | .bool a, .bool b => pure (sign ((if a then 1 else 0) - (if b then 1 else 0)))
   | .str a, .str b => pure (strCmp a b)
+  | .float a, .float b => pure (if a < b then -1 else if a > b then 1 else 0)   -- `xcmp`
   | .tuple a, .tuple b => V.cmpZip 0 a b
   | .seq a, .seq b =>
     V.cmpZip (if a.length < b.length then -1 else if a.length > b.length then 1 else 0) a b
@@ -224,6 +228,7 @@ def V.hash (H : Hasher σ) : V → R Int
   | .int a => pure (intHash a)
   | .bool a => pure (if a then 1 else 0)
   | .str _ => .error "str-hash"   -- `Hash for str` is not modelled
+  | .float _ => .error "float-hash"   -- the library defines no `hash` for floats
   | .tuple l => V.hashFold H H.init l
   | .seq l => V.hashFold H H.init l
   | .stack l => V.hashFold H H.init l
@@ -242,6 +247,7 @@ def V.toStr : V → R String
   | .int a => pure (toString a)
   | .bool a => pure (if a then "true" else "false")
   | .str s => pure s
+  | .float _ => .error "float-to_str"   -- `{:?}` of an f64 is not modelled
   | .tuple l => do pure ("(" ++ joinStr ", " (← V.toStrs l) ++ ")")
   | .seq l => do pure ("[" ++ joinStr ", " (← V.toStrs l) ++ "]")
   | .opt (some a) => V.toStr a
